@@ -24,6 +24,7 @@ func runC33(c *Ctx) {
 		return
 	}
 	fn := s.fn
+	c33Monotone(c, fn)
 	// request read: transport.readPacket call dominating A's block, inside the loop, closest to the header
 	var read *ssa.Call
 	for _, ci := range calls(fn, func(n string) bool { return strings.HasSuffix(n, ".readPacket") }) {
